@@ -2,6 +2,7 @@ package c12
 
 import (
 	"context"
+	"sync"
 	"time"
 	"math/big"
 
@@ -189,9 +190,24 @@ func (h *hub) craftFunding(dev int) *client.VirtualChannelFundingProposalMsg {
 		vp2 := channel.NewParamsUnsafe(vp.ChallengeDuration, parts, vp.App, vp.Nonce, false, true, vp.Aux)
 		st := h.vstate.Clone()
 		st.ID = vp2.ID()
+		if rt.NondetBool() { // a third balance column as well
+			st.Balances[0] = append(st.Balances[0], gen.Bal())
+		}
 		sigs := []wallet.Sig{cw.SignAs(w.Peer, st), cw.SignAs(w.Stranger, st), cw.SignAs(w.Peer, st)}[:n]
 		m.Initial = channel.SignedState{Params: vp2, State: st, Sigs: sigs}
 		to.Locked[len(to.Locked)-1].ID = vp2.ID()
+		to.Locked[len(to.Locked)-1].Bals = st.Sum()
+		if rt.NondetBool() { // an index map for three participants (consistently used)
+			im := []channel.Index{channel.Index(rt.NondetU16()), channel.Index(rt.NondetU16()), channel.Index(rt.NondetU16())}
+			m.IndexMap = im
+			to.Locked[len(to.Locked)-1].IndexMap = im
+		}
+		// any parent balances that keep the total
+		a := gen.Bal()
+		to.Balances[0][0], to.Balances[0][1] = a, new(big.Int)
+		b := new(big.Int).Sub(gen.SumBals(h.curA.Sum()), gen.SumBals(to.Sum()))
+		rt.Assume(b.Sign() >= 0)
+		to.Balances[0][1] = b
 		resign()
 	}
 	return m
@@ -273,14 +289,22 @@ func VerifVirtualFunding() {
 	uh := updateHandler()
 	withB := rt.NondetBool()
 	bFirst := rt.NondetBool()
+	var wg sync.WaitGroup
+	handle := func(from map[wallet.BackendID]wire.Address, m client.ChannelUpdateProposal) {
+		wg.Add(1)
+		go func() {
+			defer wg.Done()
+			h.w.Client.VerifHandleChannelUpdate(uh, from, m)
+		}()
+	}
 	if withB && bFirst {
-		go h.w.Client.VerifHandleChannelUpdate(uh, h.w.Other, h.honestFunding(false))
+		handle(h.w.Other, h.honestFunding(false))
 	}
-	go h.w.Client.VerifHandleChannelUpdate(uh, h.w.PeerWire, msgA)
+	handle(h.w.PeerWire, msgA)
 	if withB && !bFirst {
-		go h.w.Client.VerifHandleChannelUpdate(uh, h.w.Other, h.honestFunding(false))
+		handle(h.w.Other, h.honestFunding(false))
 	}
-	rt.QuiesceFor(10500 * time.Millisecond) // (virtualFundingTimeout is 10 s)
+	rt.QuiesceWait(waitCh(&wg), 10500*time.Millisecond) // (virtualFundingTimeout is 10 s)
 	rt.Reach("c12.vfund")
 	// C12: no lock-up, one response at most
 	rt.Assert("c12.vfund.mutex-released", h.chA.VerifMachMtxFree() && h.chB.VerifMachMtxFree())
@@ -347,7 +371,7 @@ func (h *hub) finalState() *channel.State {
 }
 
 // NumSettlementDev is the number of single deviations of craftSettlement.
-const NumSettlementDev = 11
+const NumSettlementDev = 12
 
 func (h *hub) craftSettlement(dev int, fin *channel.State) *client.VirtualChannelSettlementProposalMsg {
 	w := h.w
@@ -397,6 +421,15 @@ func (h *hub) craftSettlement(dev int, fin *channel.State) *client.VirtualChanne
 		st := fin.Clone()
 		st.Assets = gen.Assets(1)
 		m.Final.State, m.Final.Sigs = st, h.signV(st)
+	case 11: // the settled state has another number of balance columns than V has participants
+		st := fin.Clone()
+		if rt.NondetBool() {
+			st.Balances[0] = []channel.Bal{gen.SumBals(fin.Balances[0])}
+		} else {
+			st.Balances[0] = append(st.Balances[0], new(big.Int))
+		}
+		m.Final.State, m.Final.Sigs = st, h.signV(st)
+		free()
 	case 10: // three participants in the virtual channel
 		parts := []map[wallet.BackendID]wallet.Address{addr(w.Peer), addr(w.Stranger), addr(w.Peer)}
 		vp := channel.NewParamsUnsafe(h.vparams.ChallengeDuration, parts, h.vparams.App, h.vparams.Nonce, false, true, h.vparams.Aux)
@@ -487,14 +520,22 @@ func VerifVirtualSettlement() {
 		msgB = h.honestSettlement(false, fb, h.signV(fb))
 	}
 	bFirst := rt.NondetBool()
+	var wg sync.WaitGroup
+	handle := func(from map[wallet.BackendID]wire.Address, m client.ChannelUpdateProposal) {
+		wg.Add(1)
+		go func() {
+			defer wg.Done()
+			h.w.Client.VerifHandleChannelUpdate(uh, from, m)
+		}()
+	}
 	if msgB != nil && bFirst {
-		go h.w.Client.VerifHandleChannelUpdate(uh, h.w.Other, msgB)
+		handle(h.w.Other, msgB)
 	}
-	go h.w.Client.VerifHandleChannelUpdate(uh, h.w.PeerWire, msgA)
+	handle(h.w.PeerWire, msgA)
 	if msgB != nil && !bFirst {
-		go h.w.Client.VerifHandleChannelUpdate(uh, h.w.Other, msgB)
+		handle(h.w.Other, msgB)
 	}
-	rt.QuiesceFor(10500 * time.Millisecond) // (virtualSettlementTimeout is 10 s)
+	rt.QuiesceWait(waitCh(&wg), 10500*time.Millisecond) // (virtualSettlementTimeout is 10 s)
 	rt.Reach("c12.vsettle")
 	rt.Assert("c12.vsettle.mutex-released", h.chA.VerifMachMtxFree() && h.chB.VerifMachMtxFree())
 	ra, rb := h.responsesOn(h.chA.ID()), h.responsesOn(h.chB.ID())
@@ -506,4 +547,14 @@ func VerifVirtualSettlement() {
 	if dev == 0 && allocated && bKind == 1 {
 		rt.Assert("c12.vsettle.honest-settlement-accepted", ra.acc == 1 && rb.acc == 1)
 	}
+}
+
+// waitCh returns a channel that is closed when wg is done.
+func waitCh(wg *sync.WaitGroup) <-chan struct{} {
+	ch := make(chan struct{})
+	go func() {
+		wg.Wait()
+		close(ch)
+	}()
+	return ch
 }
